@@ -1,5 +1,12 @@
 # id -> (technique, level_claimed.text, design_ref)
 CLAIMED = {
+    "C07": (
+        "NaN-successor analysis of float comparisons in the Distance methods (IEEE semantics on go/ssa), mirrored-store pairing for the result matrix, branch-shape rules for the replacement condition and running maximum, constant-table evaluation of the nucleotide masks, sibling agreement of the seven models, weight-linearity value-flow rule for the pairwise counters",
+        "Decides statically the undefined-value, matrix-shape, table and weighting clauses of C07 for all seven models and every alignment: no Distance method turns a NaN estimator (saturated pair) into a constant - for each branch on a value derived from math.Log/Pow/division the successor taken by NaN must not return a float constant; "
+        "every store outmatrix[i][j] in DistMatrix is paired with a store of the same value to outmatrix[j][i] and diagonal stores are the constant 0 (symmetric, zero diagonal); the replacement test covers <0, ==+Inf and >NT_DIST_OVER, the running maximum is raised only from values that are not being replaced and only when larger, and the substitute 2*max goes to both cells; "
+        "NT_* masks, IupacCode, iupacToInt and iupacCodeByte agree with the IUPAC code; every model initialises selectedSites and sequenceCodes through the same helpers with its own removegaps flag and passes (seq1, seq2, m.selectedSites, weights) to its counter; in the six counters/frequency estimators every accumulation in the site loop adds a term carrying the site weight, read at the residue index and not control-dependent on the residues. "
+        "NOT decided: the coefficients of each closed-form estimator, base-frequency values, gamma variants, the lower bound by the p-distance, gap/ambiguity counting modes as evaluated on data.",
+        "DESIGN.md §3 C07"),
     "C06": (
         "exhaustive constant-table evaluation of the complement map against the IUPAC oracle (go/constant) with who-may-write value flow, SSA shape rules for Complement/Reverse/case folding (same-cell load/store identity, mirrored-index invariant by linear forms), per-iteration call counting for the reverse-complement loops, write-effect frame analysis",
         "Decides statically the table and structure clauses of C06 for every sequence: complement_nuc_mapping has exactly the 15 IUPAC codes and U in both cases plus gap, point and star, each code maps to the code whose base set is the base-wise complement of its own, case is preserved, the special characters are fixed, the table is an involution except on U/u and is never written; "
@@ -56,11 +63,11 @@ CLAIMED = {
         "NOT decided: the ambiguity loop as executed, TranslateByReference, CodonAlign data flow, 3-frame naming. Level 'other': necessary structural conditions, not the behaviour.",
         "DESIGN.md §3 C05"),
     "C08": (
-        "goroutine-protocol analysis on go/ssa: must-call-before-return dataflow (WaitGroup.Done, close), lockset on captured variables, call-graph reachability, error-flow and accumulation-shape rules",
+        "goroutine-protocol analysis on go/ssa: must-call-before-return dataflow (WaitGroup.Done, close), lock/unlock pairing on all paths, lockset on captured variables, call-graph reachability, error-flow and accumulation-shape rules, weight-linearity value-flow rule for the counters",
         "Decides statically the concurrency clauses of C08 on distance/dna.DistMatrix for every schedule and thread count: every worker executes wg.Done on all paths and the producer closes the work channel on all "
-        "paths (the call returns), every scalar shared between goroutines is accessed under one common mutex or by a single thread (parent accesses between spawn and join included; helper closures called from goroutines "
+        "paths, every mux.Lock is released on every path before a return or the next Lock (the call returns), every scalar shared between goroutines is accessed under one common mutex or by a single thread (parent accesses between spawn and join included; helper closures called from goroutines "
         "are attributed to the calling threads), worker-side accumulations are exact and commutative (guarded maximum; collected pairs consumed by a loop that only writes per-item cells), no random draw is reachable from the "
-        "goroutines, and the error of every model call is stored to the function's error result. NOT decided: invariance under column permutation/replication/reverse-complement and linear scaling (relational, value level); "
+        "goroutines, the error of every model call is stored to the function's error result, and every accumulation of the pairwise counters and base-frequency estimators is linear in the site weight (integer weight k = k-fold replication: the added term carries weights[k] read at the residue index, independent of the residues). NOT decided: invariance under column permutation/replication/reverse-complement and linear scaling (relational, value level); "
         "disjointness of matrix-cell writes is assumed from the producer enumerating each pair once.",
         "DESIGN.md §3 C08"),
     "C11": (
